@@ -23,11 +23,12 @@ func init() { register("C09", "model_checking", c09) }
 // One comparison class: an entry point, fixed parameters, a fixed key; the d submitted
 // codes differ from one window code in exactly one position each.
 type c09Case struct {
-	Entry  string `json:"entry"`
-	Digits int    `json:"digits"`
-	Algo   int    `json:"algo"`
-	Skew   int    `json:"skew"`
-	WinPos int    `json:"window_position"` // which window code the wrong codes are derived from (-skew..skew)
+	AfterSuccess bool   `json:"after_a_successful_validation,omitempty"` // a correct code was validated just before
+	Entry        string `json:"entry"`
+	Digits       int    `json:"digits"`
+	Algo         int    `json:"algo"`
+	Skew         int    `json:"skew"`
+	WinPos       int    `json:"window_position"` // which window code the wrong codes are derived from (-skew..skew)
 }
 
 const c09T = int64(1111111109)
@@ -177,6 +178,10 @@ func nonInterference(c c09Case, st *c09Stats) (obs, bad string, calls int) {
 			// warm-up outside the trace: lazily built objects of the harness/REST layer (handler chain)
 			silence(func() { try(func() { c09Call(c, w) }) })
 		}
+		if c.AfterSuccess {
+			// the correct code is validated first (whatever that leaves behind is then the same for every traced call)
+			silence(func() { try(func() { c09Call(c, base) }) })
+		}
 		irt.ResetPools() // every traced call starts from the same (empty-pool) state
 		silence(func() { pn = try(func() { tr = irt.Traced(func() { verdict = c09Call(c, w) }) }) })
 		calls++
@@ -261,7 +266,7 @@ func c09(r *ev.Run) {
 						if !r.Thorough() && s == 10 && wp%3 != 0 && wp != -10 && wp != 10 {
 							continue
 						}
-						c := c09Case{e.name, d, a, s, wp}
+						c := c09Case{Entry: e.name, Digits: d, Algo: a, Skew: s, WinPos: wp, AfterSuccess: (d+a+s+wp)%2 == 0}
 						obs, bad, n := nonInterference(c, st)
 						classes++
 						calls += int64(n)
@@ -302,8 +307,8 @@ func c09(r *ev.Run) {
 	r.Set("classes_per_entry_point", perEntry)
 	r.Set("constant_time_sites_witnessed", ctSites)
 	r.Set("early_exit_sites_executed_on_public_data", cmpSites)
-	r.Sample(map[string]any{"class": c09Case{"ValidateHOTP", 6, 0, 2, -1}, "meaning": "fixed key; the code of window position -1 with its character j replaced, for every j = 0..5; all six calls must reject and produce one identical trace of statement ids and comparison events"})
-	r.Sample(map[string]any{"class": c09Case{"wasm:validateTOTP", 8, 2, 10, 10}, "meaning": "the binding's own window loop, executed natively over a fake syscall/js"})
+	r.Sample(map[string]any{"class": c09Case{Entry: "ValidateHOTP", Digits: 6, Algo: 0, Skew: 2, WinPos: -1}, "meaning": "fixed key; the code of window position -1 with its character j replaced, for every j = 0..5; all six calls must reject and produce one identical trace of statement ids and comparison events"})
+	r.Sample(map[string]any{"class": c09Case{Entry: "wasm:validateTOTP", Digits: 8, Algo: 2, Skew: 10, WinPos: 10}, "meaning": "the binding's own window loop, executed natively over a fake syscall/js"})
 	r.Rule("for every entry point (3 library validators, the wasm-tagged validator built natively, 3 REST validate handlers in-process, the 2 wasm binding validators over a fake syscall/js) x digits x hash x window size {0,1,2,10} x window position: the d wrong codes differing from that window code in exactly one position are submitted to the instrumented code; oracle: all rejected, all traces (statement ids + comparison events incl. index of first mismatch for every early-exit comparison of strings/bytes) identical; state = comparison class, transition = traced call; distinct = distinct (entry, verdict, trace length)")
 	r.Assume("leak model: an early-exit comparator's time is a function of the index of the first mismatch, a constant-time comparator's is not; decides a model, not nanoseconds", "the instrumenter makes visible: ==/!=/ordering on strings and byte arrays, bytes.*/strings.*/slices.*/sort.SearchStrings/reflect.DeepEqual comparisons, string switches with non-constant cases, lookups in maps with string keys; byte-wise loops show in the statement trace; comparisons hidden inside other library routines are outside the model", "the js/wasm binding is traced natively over a fake syscall/js; crypto/subtle and the Go compiler are trusted")
 }
